@@ -886,11 +886,10 @@ func evalCursorAttribute(expr parser.CursorAttrebute, scope *ReferenceScope) (va
 }
 
 func evalPlaceholder(ctx context.Context, scope *ReferenceScope, expr parser.Placeholder) (value.Primary, error) {
-	v := ctx.Value(StatementReplaceValuesContextKey)
-	if v == nil {
+	replace, _ := ctx.Value(StatementReplaceValuesContextKey).(*ReplaceValues)
+	if replace == nil {
 		return nil, NewStatementReplaceValueNotSpecifiedError(expr)
 	}
-	replace := v.(*ReplaceValues)
 
 	var idx int
 	if 0 < len(expr.Name) {
@@ -905,7 +904,7 @@ func evalPlaceholder(ctx context.Context, scope *ReferenceScope, expr parser.Pla
 			return nil, NewStatementReplaceValueNotSpecifiedError(expr)
 		}
 	}
-	return Evaluate(ctx, scope, replace.Values[idx])
+	return Evaluate(context.WithValue(ctx, StatementReplaceValuesContextKey, replace.outer), scope, replace.Values[idx])
 }
 
 // EvalRowValue returns single or multiple fields, single record
